@@ -357,6 +357,20 @@ pub fn parts<'a>(cli: &'a Cli) -> Option<(Vec<Part<'a>>, &'static str, Vec<&'sta
         "inputs follow the grammar of DESIGN.md 3.1",
     ];
     match cli.property.as_str() {
+        "C02" => {
+            parts.push(make_part("mem", "CONV/mem", cli.cases(20_000, 1_000_000), || gen::c02_strategy(mem()), |_| (), |_, c| {
+                let (exp, obs) = run(c);
+                c02_oracle(c, &exp, &obs, "00000000")
+            }));
+            Some((parts, "part mem: the C02 cases over the in-memory connection (remote_addr must be absent)", a))
+        }
+        "C04" => {
+            parts.push(make_part("mem-conn", "CONV/mem", cli.cases(10_000, 500_000), || gen::c04_conn_strategy(mem()), |_| (), |_, c| {
+                let (exp, obs) = run(c);
+                c04_conn_oracle(c, &exp, &obs)
+            }));
+            Some((parts, "part mem-conn: 1-3 pipelined GET/HEAD requests (HTTP/1.0 and 1.1, optional TE header) answered with respond(): status x body length (boundary set) x declared/undeclared x chunk threshold; oracle: the client's independent parser sees exactly one well-formed self-delimiting message per request with exactly the body (none for HEAD/204/304), each response followed directly by the next", a))
+        }
         "C03" => {
             parts.push(make_part("mem", "CONV/mem", cli.cases(20_000, 1_000_000), move || gen::c03_strategy(max_len, mem()), |_| (), |_, c| {
                 let (exp, obs) = run(c);
